@@ -174,6 +174,28 @@ func checkC15(c *c15Case) (ds []hx.Discrepancy, info map[string]bool) {
 		}
 		add("print-not-stable", sig, "printing the re-parsed schema gives different text: %s\n--- first print\n%s\n--- second print\n%s", firstDiff(p1, p2), p1, p2)
 	}
+	// per type: what every type and directive prints for itself, put together, is the same schema
+	// (an implied schema that was extended has no type object to print: left to the whole-root print)
+	if sch := impliedSchema(root); sch == nil || (len(sch.Directives()) == 0 && !strings.Contains(p1, "\nschema")) {
+		var parts []string
+		for _, t := range root.Types() {
+			if !t.Core() {
+				parts = append(parts, t.SDL(true))
+			}
+		}
+		for _, d := range rootDirectives(root) {
+			if !d.Core() {
+				parts = append(parts, d.SDL(true))
+			}
+		}
+		pt := strings.Join(parts, "\n")
+		info["printed-type-by-type"] = true
+		if ft, errt, pant := loadFresh(pt); pant != nil || errt != nil {
+			add("printed-sdl-rejected", "", "the SDL printed type by type is not accepted by a fresh root: %v %v\n--- original\n%s\n--- printed type by type\n%s", errt, pant, c.SDL, pt)
+		} else if dt := Describe(ft, o); dt != d0 {
+			add("printed-sdl-differs", "", "the SDL printed type by type defines a different schema: %s\n--- original\n%s\n--- printed type by type\n%s", firstDiff(d0, dt), c.SDL, pt)
+		}
+	}
 	// without descriptions the same must hold for the structure
 	q1 := root.SDL(false)
 	fresh2, err, pan := loadFresh(q1)
